@@ -163,6 +163,13 @@ def compute_pipeline_semantic_id(canonical_spec: Dict[str, Any]) -> str:
                 "name": node.get("name"),
                 "node_uuid": node.get("node_uuid"),
                 "payload_from": node.get("payload_from"),
+                # Node semantics (e.g. derive.parameter_sweep definitions) are rolled
+                # into the pipeline Semantic ID.
+                "node_semantic_id": (
+                    compute_node_semantic_id(node["preprocessor_metadata"])
+                    if isinstance(node.get("preprocessor_metadata"), dict)
+                    else None
+                ),
             }
             for node in canonical_spec.get("nodes", [])
         ]
